@@ -296,29 +296,31 @@ func (r *c14sRun) marked(g c14sG) (isWorker bool, marked bool) {
 	return false, strings.Contains(g.text, "controler/pause.") || strings.Contains(g.text, "main.c14s")
 }
 
+// quiet: in this (consistent) dump no goroutine of the experiment can move
+func (r *c14sRun) quiet(gs []c14sG) bool {
+	for _, g := range gs {
+		isW, m := r.marked(g)
+		if !m {
+			continue
+		}
+		if !g.blocked {
+			return false
+		}
+		if isW {
+			if p := c14sWhere(g); p != 0 && p != 1 {
+				return false
+			}
+		}
+	}
+	return true
+}
+
 // quiesce: no goroutine of the experiment can move any more
 func (r *c14sRun) quiesce() []c14sG {
 	deadline := time.Now().Add(c14sDeadline)
 	for {
 		gs := c14sSnapshot()
-		quiet := true
-		for _, g := range gs {
-			isW, m := r.marked(g)
-			if !m {
-				continue
-			}
-			if !g.blocked {
-				quiet = false
-				break
-			}
-			if isW {
-				if p := c14sWhere(g); p != 0 && p != 1 {
-					quiet = false
-					break
-				}
-			}
-		}
-		if quiet {
+		if r.quiet(gs) {
 			return gs
 		}
 		if time.Now().After(deadline) {
@@ -348,26 +350,78 @@ func c14sFeed(s *c14sStage, it *models.Item, abort <-chan struct{}) {
 	}
 }
 
+func c14sCaller(r *c14sRun, f func(), done chan struct{}) {
+	defer func() {
+		if e := recover(); e != nil {
+			r.panicked.Store(true)
+			if os.Getenv("C14S_DEBUG") != "" {
+				fmt.Fprintf(os.Stderr, "c14s: a call panicked: %v\n", e)
+			}
+		}
+		close(done)
+	}()
+	f()
+}
+
 // c14sCall runs one call of the crawler's API in a goroutine of its own; false = it did not return
+// (safety deadline: Start and Stop talk to goroutines this driver does not follow)
 func (r *c14sRun) c14sCall(f func()) bool {
 	done := make(chan struct{})
-	go func() {
-		defer func() {
-			if e := recover(); e != nil {
-				r.panicked.Store(true)
-				if os.Getenv("C14S_DEBUG") != "" {
-					fmt.Fprintf(os.Stderr, "c14s: a call panicked: %v\n", e)
-				}
-			}
-			close(done)
-		}()
-		f()
-	}()
+	go c14sCaller(r, f, done)
 	select {
 	case <-done:
 		return true
 	case <-time.After(c14sDeadline):
 		return false
+	}
+}
+
+// c14sInPause: the calling goroutine is parked in an operation of the pause package itself (the
+// first frame that is not the runtime's or sync's belongs to it)
+func c14sInPause(gs []c14sG) bool {
+	for _, g := range gs {
+		if !strings.Contains(g.text, "main.c14sCaller") {
+			continue
+		}
+		for _, l := range strings.Split(g.text, "\n")[1:] {
+			if strings.HasPrefix(l, "\t") || strings.HasPrefix(l, "runtime.") || strings.HasPrefix(l, "sync.") || strings.HasPrefix(l, "internal/") {
+				continue
+			}
+			return strings.Contains(l, "/internal/pkg/controler/pause.")
+		}
+	}
+	return false
+}
+
+// c14sCallPause: a Pause / Resume call.  These only talk to the subscribers, so a call that will
+// never return is recognised at once and without a watchdog: a consistent dump in which the
+// caller is parked inside the pause package and every other goroutine of the experiment is parked
+// too (workers in their main select or in the acknowledgement).
+func (r *c14sRun) c14sCallPause(f func()) bool {
+	done := make(chan struct{})
+	go c14sCaller(r, f, done)
+	deadline := time.Now().Add(c14sDeadline)
+	poll := 200 * time.Microsecond
+	for {
+		select {
+		case <-done:
+			return true
+		case <-time.After(poll):
+		}
+		if gs := c14sSnapshot(); r.quiet(gs) && c14sInPause(gs) {
+			select {
+			case <-done: // (the dump was taken first)
+				return true
+			default:
+				return false
+			}
+		}
+		if time.Now().After(deadline) {
+			return false
+		}
+		if poll < 20*time.Millisecond {
+			poll *= 2
+		}
 	}
 }
 
@@ -493,10 +547,10 @@ func c14sExecLocal(in string) Result {
 		callOK := true
 		switch op.kind {
 		case 'P':
-			callOK = r.c14sCall(func() { pause.Pause("c14s") })
+			callOK = r.c14sCallPause(func() { pause.Pause("c14s") })
 			paused = true
 		case 'R':
-			callOK = r.c14sCall(pause.Resume)
+			callOK = r.c14sCallPause(pause.Resume)
 			paused = false
 		case 'F':
 			for _, s := range r.stages {
